@@ -2,7 +2,7 @@
 # confirm a seeded change in its scratch worktree: suite passes with the change, demo fails with it, demo passes without it
 # usage: confirm_seed.sh <ID> <n> <append:relative/test/file.rs | module> <test filter> [demo file name]
 ID=$1; N=$2; MODE=$3; FILTER=$4; DEMO=${5:-}
-WT=/tmp/wt-$ID; S=/tmp/seed-$ID/$N; OUT=$S/confirm.txt
+WT=${WT:-/tmp/wt-$ID}; S=${S:-/tmp/seed-$ID/$N}; OUT=$S/confirm.txt
 cd $WT || exit 2
 git checkout -q -- . ; git clean -fdq acts store
 [ -z "$DEMO" ] && DEMO=$(ls $S | grep -E "demo.*\.rs$" | head -1)
